@@ -446,10 +446,15 @@ func dv2(c *Ctx, dv *dev) *dev {
 
 func checkC07(c *Ctx) {
 	dv := newDev(c, "R7.0")
-	if !dv.ok || !dv.need("R7.0", []string{"handleABSEvent", "NewDevice"}, []string{"ccZeroed", "ccLearning", "lastAnalogValue", "outputEvents", "channel"}) {
+	if !dv.ok || !dv.need("R7.0", []string{"handleABSEvent", "NewDevice"}, []string{"ccLearning", "lastAnalogValue", "outputEvents", "channel"}) {
 		return
 	}
+	// the flag table is one of two ways to keep the side bookkeeping (see rules_c07_prev.go): without it every
+	// bidirectional path must use the previous-side form
+	hasFlags := dv.fields["ccZeroed"] != nil
 	fn := dv.fn["handleABSEvent"]
+	lastF := dv.fields["lastAnalogValue"]
+	recorded := recordedPositions(lastF, dv.hostsOf(fn))
 	paths, err := absPaths(c, dv)
 	if !c.Require(err == nil, "R7.1", "device.handleABSEvent", fmt.Sprint(err)) {
 		return
@@ -579,9 +584,13 @@ func checkC07(c *Ctx) {
 		}
 		// bidirectional: which side? (decided by the comparisons made inside the controller case, not by the sign tests of the
 		// shaping stage in front of it, which become path conditions when that stage lives in helper functions)
-		var fas []floatAtom
+		var fas, prevAtoms []floatAtom
 		for _, fa := range floatAtoms(p) {
 			if in := p.Atoms[fa.idx].Instr; in != nil && ccRegion[in.Block()] {
+				if x := condOperand(in); x != nil && fromLastPosition(lastF, x, map[ssa.Value]bool{}) {
+					prevAtoms = append(prevAtoms, fa) // a statement about the previous position, not about the new one
+					continue
+				}
 				fas = append(fas, fa)
 			}
 		}
@@ -644,10 +653,58 @@ func checkC07(c *Ctx) {
 				}
 			}
 		}
-		if bad == "" && !zeroedKnown {
+		prevForm := false
+		if bad == "" && !zeroedKnown && (!hasFlags || len(zsets) == 0) {
+			// previous-side form: the controller of the side left is sent its 0 unless the path knows that the last transmitted
+			// position of this axis was already on this side (or at the centre, where that controller got its 0)
+			prevForm = true
+			thr := 0.0
+			if centred {
+				thr = 0.5
+			}
+			var sideOperand ssa.Value
+			for _, fa := range fas {
+				if fa.k == thr && (fa.op == "<" || fa.op == ">=") {
+					sideOperand = condOperand(p.Atoms[fa.idx].Instr)
+				}
+			}
+			zeroSent := len(sends) == 2 && sends[1].ok && sends[1].Kind == midiCC && analogField(sends[1].B1, otherF)
+			switch {
+			case lastValIdx < 0:
+				bad = "previous-side form: a transmitted position is not recorded as the axis' last position"
+			case zeroSent:
+				if k0, ok := sends[1].B2.IsIntConst(); !ok || k0 != 0 {
+					bad = "the side being left is not sent the value 0"
+				} else if other := map[string]string{"neg": "pos", "pos": "neg"}[side]; ccChannelSide(dv, sends[1].Channel) != other {
+					bad = "the zero for the side being left goes to the wrong channel"
+				}
+			case len(sends) != 1:
+				bad = "unexpected messages on a bidirectional path"
+			default:
+				known := false
+				for _, fa := range prevAtoms {
+					if fa.k != thr {
+						continue
+					}
+					onThisSide := (side == "neg" && (fa.op == "<" || fa.op == "<=")) || (side == "pos" && (fa.op == ">=" || fa.op == ">"))
+					if !onThisSide {
+						continue
+					}
+					if x := condOperand(p.Atoms[fa.idx].Instr); sideOperand != nil && sameCoordinates(lastF, sideOperand, x, recorded, 0) {
+						known = true
+					} else {
+						bad = "the previous position is compared in other coordinates than the new one (a flip or shift applied to one of them only)"
+					}
+				}
+				if !known && bad == "" {
+					bad = "the controller of the side being left is not zeroed although the path does not know that the previous transmitted position was on this side (no flag of the opposite controller, no test of the previous position)"
+				}
+			}
+		}
+		if bad == "" && !zeroedKnown && !prevForm {
 			bad = "the flag of the opposite controller is not tested"
 		}
-		if bad == "" {
+		if bad == "" && !prevForm {
 			var setOther, setThis *Effect
 			for i := range zsets {
 				e := &zsets[i]
@@ -705,7 +762,14 @@ func checkC07(c *Ctx) {
 	c.MinCount("R7.9", 1)
 	// R7.5 writers of the flags
 	var ws []string
-	for _, s := range c.P.writersOfField(dv.fields["ccZeroed"]) {
+	if !hasFlags {
+		c.OK("R7.5", "no-flag-table", pos, "the side bookkeeping is kept in the previous-side form: no flag table to protect (the positions are protected by R6.16)")
+	}
+	var flagWriters []writeSite
+	if hasFlags {
+		flagWriters = c.P.writersOfField(dv.fields["ccZeroed"])
+	}
+	for _, s := range flagWriters {
 		name := dv.refName(dv.ownerOf(s.Fn))
 		key := "write(Device.ccZeroed)@" + shortFn(s.Fn)
 		ws = append(ws, name)
@@ -721,7 +785,9 @@ func checkC07(c *Ctx) {
 	c.importRules(emulationReachRules, []string{"R8.9b"}, "R7.8") // every new position of a controller axis reaches the side logic
 	c.MinCount("R7.1", 5)
 	c.MinCount("R7.4", 1)
-	c.MinCount("R7.5", 2)
+	if hasFlags {
+		c.MinCount("R7.5", 2)
+	}
 	c.DecidedClause("each of the four side branches (signed / centred-unsigned x negative / positive) sends the active controller with the deflection magnitude on its own channel, explicitly sends 0 to the opposite controller on the opposite channel unless it is already flagged zero, flags it, and un-flags the active one — on every path; side selection compares the shaped value with 0 resp. 0.5; the learning gate precedes every send and lets only |value| > 0.5 through; a position the gate swallows is not recorded as sent; the flags have no other writer")
 	c.UndecidedClause("numeric values (C06); controllers with the same number on different channels share one flag (outside the stated quantifier)")
 	_ = ssa.Function{}
